@@ -41,6 +41,39 @@ pub fn random_arcs(r: &mut Rng, n: usize, p: f64) -> Model {
     m
 }
 
+/// About `k` arcs per vertex, any order.
+pub fn sparse_random(r: &mut Rng, n: usize, k: usize) -> Model {
+    let mut m = Model::new(n);
+    if n < 2 {
+        return m;
+    }
+    for u in 0..n {
+        for _ in 0..r.below(k + 1) {
+            let v = r.below(n);
+            if v != u {
+                m.add(u, v, 1);
+            }
+        }
+    }
+    m
+}
+
+/// A digraph for an algorithm property: any family at small orders, sparse
+/// families / sparse random arcs at big orders.
+pub fn algo_digraph(r: &mut Rng, small_max: usize, big_max: usize) -> (Model, &'static str) {
+    let n = algo_order(r, small_max, big_max);
+    if n <= small_max {
+        let f = r.below(FAMILIES.len());
+        (family(r, f, n), FAMILIES[f])
+    } else if r.chance(0.5) {
+        let f = sparse_family(r);
+        (family(r, f, n), FAMILIES[f])
+    } else {
+        let k = r.range(1, 3);
+        (sparse_random(r, n, k), "sparse_random_big")
+    }
+}
+
 pub fn tournament(r: &mut Rng, n: usize) -> Model {
     let mut m = Model::new(n);
     for u in 0..n {
@@ -310,6 +343,24 @@ pub fn order(r: &mut Rng, max: usize) -> usize {
     n.min(max).max(1)
 }
 
+/// Orders for the algorithm properties: mostly small (dense inputs stay
+/// cheap), sometimes medium, rarely on/over the 64 boundary or large.
+pub fn algo_order(r: &mut Rng, small_max: usize, big_max: usize) -> usize {
+    match r.below(200) {
+        0..=5 => (*r.pick(&[31usize, 32, 33, 63, 64, 65])).min(big_max),
+        6..=8 => r.range(66, 130.max(66)).min(big_max),
+        9 => (*r.pick(&[127usize, 128, 129, 192, 257])).min(big_max),
+        _ => small_order(r, small_max),
+    }
+    .max(1)
+}
+
+/// A family that stays sparse (O(n) arcs) at any order.
+pub fn sparse_family(r: &mut Rng) -> usize {
+    // path, circuit, cycle, star, wheel, out_tree, in_tree, empty
+    *r.pick(&[3usize, 4, 5, 6, 7, 12, 13, 1])
+}
+
 pub fn small_order(r: &mut Rng, max: usize) -> usize {
     match r.below(10) {
         0 => 1,
@@ -331,6 +382,14 @@ pub fn sparsify(r: &mut Rng, m: &Model) -> Model {
     let n = m.n();
     let mut ids: BTreeSet<usize> = BTreeSet::new();
     // draw from the pool first, then fill with small ids / offsets
+    if n > 64 {
+        // big inputs: strictly increasing ids with random gaps
+        let mut next = r.below(3);
+        while ids.len() < n {
+            ids.insert(next);
+            next += 1 + if r.chance(0.3) { r.below(5) } else { 0 };
+        }
+    }
     let mut guard = 0;
     while ids.len() < n {
         guard += 1;
@@ -342,7 +401,8 @@ pub fn sparsify(r: &mut Rng, m: &Model) -> Model {
         };
         ids.insert(c);
         if guard > 10_000 {
-            break;
+            let top = ids.iter().max().map_or(0, |x| x + 1);
+            ids.insert(top);
         }
     }
     let map: Vec<usize> = ids.into_iter().collect();
